@@ -40,6 +40,24 @@ GOENV.pop("GOSUMDB", None)
 GOENV.pop("GOTOOLCHAIN", None)
 
 
+def load_config(pid):
+    """checks/<ID>.json merged with every fragment checks/<ID>.<layer>.json (other
+    layers of the same property: bridge lemmas, schedules, reads, …)."""
+    import glob
+    cfg = json.load(open(os.path.join(VERIF, "checks", pid + ".json")))
+    for f in sorted(glob.glob(os.path.join(VERIF, "checks", pid + ".*.json"))):
+        frag = json.load(open(f))
+        for k in ("props_modules", "translators", "workloads", "trusted_base", "assumptions"):
+            for x in frag.get(k, []):
+                if x not in cfg.setdefault(k, []):
+                    cfg[k].append(x)
+        layer = os.path.basename(f).split(".")[1]
+        for k in ("level_text", "level_note", "technique", "rule", "model_scope", "partial"):
+            if frag.get(k):
+                cfg[k] = (cfg.get(k, "") + " || [" + layer + "] " + frag[k]).strip(" |")
+    return cfg
+
+
 def log(*a):
     print(*a, file=sys.stderr, flush=True)
 
